@@ -129,8 +129,14 @@ func (s StaticCollection[T]) Reset(newState []T) {
 	nv := map[string]T{}
 	for _, incoming := range newState {
 		k := GetKey(incoming)
+		old, f := s.vals[k]
+		if prev, dup := nv[k]; dup {
+			// The key was already in newState: the later object wins (as in NewStaticCollection) and
+			// replaces the one just reported, instead of being reported as a second Add.
+			old, f = prev, true
+		}
 		nv[k] = incoming
-		if old, f := s.vals[k]; f {
+		if f {
 			if !Equal(old, incoming) {
 				ev := Event[T]{
 					Old:   &old,
